@@ -58,16 +58,24 @@ ReadStats read_stats() { return g_rstats; }
 struct WriteStream { write_cb cb; void *ud; };
 static int g_wfail_n = 0, g_wfail_errno = 0, g_wfailures = 0;
 static size_t g_wfail_accept = 0;
+static bool g_fail_pending = false;
 static ssize_t wr(void *ck, const char *buf, size_t size) {
     WriteStream *w = (WriteStream *)ck;
     sim::yield(sim::PK_HARNESS, nullptr, 11);
+    if (g_fail_pending) { // the retry of the remainder after a short write fails
+        g_fail_pending = false;
+        g_wfailures++; // whether this call is stdio's retry or the next line's write is up to stdio: count it as a failure of its own
+        sim::fault_fired("stream_write_error");
+        errno = g_wfail_errno;
+        return 0;
+    }
     if (g_wfail_n > 0 && --g_wfail_n == 0) {
         g_wfailures++;
         sim::fault_fired("stream_write_error");
         size_t acc = std::min(g_wfail_accept, size);
-        if (acc) { w->cb(buf, acc, w->ud); return (ssize_t)acc; } // short write; stdio retries the rest, which then fails
+        if (acc && acc < size) { w->cb(buf, acc, w->ud); g_fail_pending = true; return (ssize_t)acc; } // short write, then error
         errno = g_wfail_errno;
-        return 0; // fopencookie: 0 signals error for write functions
+        return 0; // fopencookie: 0 signals an error for write functions
     }
     w->cb(buf, size, w->ud);
     return (ssize_t)size;
@@ -82,7 +90,7 @@ FILE *open_write_stream(write_cb cb, void *ud) {
 }
 void write_stream_fail(int nth, int e, size_t accept) { g_wfail_n = nth; g_wfail_errno = e; g_wfail_accept = accept; }
 int write_stream_failures() { return g_wfailures; }
-void reset() { g_wfail_n = 0; g_wfailures = 0; g_script = ReadScript(); g_rstats = ReadStats(); }
+void reset() { g_wfail_n = 0; g_wfailures = 0; g_fail_pending = false; g_script = ReadScript(); g_rstats = ReadStats(); }
 
 } // namespace simfile
 
